@@ -45,7 +45,10 @@ def cst(x) -> str:
     if isinstance(x, np.ndarray) and x.ndim != 0:
         raise Unsupported("array constant")
     if not isinstance(x, (int, np.integer, Fraction)):
-        xf = float(x)
+        try:
+            xf = float(x)
+        except (TypeError, ValueError) as ex:
+            raise Unsupported(f"non-numeric constant {type(x).__name__}") from ex
         if xf == LN2:
             return "(c ln2)"
         if xf == LN10:
